@@ -161,7 +161,7 @@ def uncovered_handlers(run, out):
     if run["pkg"] not in SERVICE_PREFIX:
         return []
     h = run["harness"]
-    if isinstance(h, dict) or h != "Step_.*":
+    if isinstance(h, dict) or not (h == "Step_.*" or run.get("full_service")):
         return []
     path, prefix = SERVICE_PREFIX[run["pkg"]]
     try:
